@@ -41,11 +41,27 @@ def publication_fns(F):
         b = f.built
         if not b or f.vis == "pub":
             continue
-        if st == VEC_T and b.calls(r"broadcast::Sender::<.*>::send$"):
+        if st == VEC_T and reaches_send(F, f) and any("VectorDiff<" in b.locals[i]["ty"] and "OneOrManyDiffs" not in b.locals[i]["ty"] and "Vec<" not in b.locals[i]["ty"] for i in range(1, b.arg_count + 1)):
             vec.append(f)
         if st.startswith("vector::transaction::ObservableVectorTransaction<") and any(mentions_field(b.expr_of_op(t["args"][0]), "batch") for _, t in b.calls(r"^std::vec::Vec::<.*>::push$")):
             txn.append(f)
     return vec, txn
+
+
+def reaches_send(F, f, depth=3):
+    """f (or a private helper it calls) sends on the broadcast channel."""
+    b = f.built
+    if not b:
+        return False
+    if b.calls(r"broadcast::Sender::<.*>::send$"):
+        return True
+    if depth <= 0:
+        return False
+    for blk, t in b.calls():
+        c = F.local_callee(f, t)
+        if c is not None and c is not f and not default_keep(c) and reaches_send(F, c, depth - 1):
+            return True
+    return False
 
 
 def mutators(F, self_prefix):
@@ -111,7 +127,7 @@ def run(ctx):
 
 def check_mutator(ctx, f, pub, table):
     F = ctx.facts
-    b = f.built
+    b = inl(F, f, pub)
     muts = values_mutations(b)
     pubs = [(blk, t) for blk, t in b.calls() if F.local_callee(f, t) is pub]
     ctx.call_sites += len(muts) + len(pubs)
@@ -120,6 +136,8 @@ def check_mutator(ctx, f, pub, table):
     # ---- R05.1 table agreement ------------------------------------------------
     for pblk, pt in pubs:
         d = strip(b.expr_of_op(pt["args"][1]), through_calls=False)
+        if d[0] == "agg" and d[1] == "adt" and d[2].endswith("OneOrManyDiffs") and d[3] == "One" and d[5]:
+            d = strip(d[5][0], through_calls=False)  # the publication helper takes the message payload: look inside One(..)
         v = diff_agg_variant(d)
         where = b.line_at((pblk, 10 ** 6))
         if v is None:
@@ -266,15 +284,17 @@ REVERSERS = r"Iterator>?::rev$|DoubleEndedIterator>?::next_back$|::reverse$|Vec:
 def r05_5(ctx):
     F = ctx.facts
     n = 0
+    from .c06 import find_lag_handler
+    lagh = find_lag_handler(F)
     for f in F.find(crate=IM):
-        b = f.built
-        if not b:
+        if not f.built:
             continue
         root = root_fn(F, f)
         in_stream = (root.file or "").endswith("vector/subscriber.rs") and root.name == "poll_next"
         of_msg = (root.raw.get("self_ty") or "").startswith("vector::OneOrManyDiffs<") and not root.raw.get("impl_trait")
         if not (in_stream or of_msg):
             continue
+        b = inl(F, f, lagh)
         # (a) nothing is taken from the back / reversed while unpacking a multi-diff message
         for blk, t in b.calls(REVERSERS):
             n += 1
